@@ -176,16 +176,20 @@ OsEffect(ev) ==
 (* ------------------------------------------------------------------------------------------------------ *)
 JitWhy(ev) == Chk("jit: write window opened inside an open write window (nested ProtectJitReadWriteScope)",
                   ev.acc = "RW" => jit = "RX")
-JitEffect(ev) == jit' = ev.acc /\ UNCHANGED <<page, maps, fds, files, objsz, handles, spans, rt, vm, rtc, flushed, lastfree, facts>>
+(* Jit / Flush events inside a recorded call are also appended to the call's log (ProtectJitReadWriteScope) *)
+Logged(x) == IF vm.api = "none" THEN vm ELSE [vm EXCEPT !.log = Append(@, x)]
+JitEffect(ev) == /\ jit' = ev.acc /\ vm' = Logged([k |-> "jit", acc |-> ev.acc])
+                 /\ UNCHANGED <<page, maps, fds, files, objsz, handles, spans, rt, rtc, flushed, lastfree, facts>>
 FlushWhy(ev) == {}
 FlushEffect(ev) == /\ flushed' = IF rtc.api = "none" THEN flushed ELSE flushed \cup {[a |-> ev.a, n |-> ev.n]}
-                   /\ UNCHANGED <<page, maps, fds, files, objsz, handles, spans, rt, vm, rtc, jit, lastfree, facts>>
+                   /\ vm' = Logged([k |-> "flush", a |-> ev.a, n |-> ev.n])
+                   /\ UNCHANGED <<page, maps, fds, files, objsz, handles, spans, rt, rtc, jit, lastfree, facts>>
 
 (* ------------------------------------------------------------------------------------------------------ *)
 (* VirtMem API                                                                                            *)
 (* ------------------------------------------------------------------------------------------------------ *)
 VmCallWhy(ev) == Chk("vm: call inside a VirtMem call", vm.api = "none")
-VmCallEffect(ev) == /\ vm' = [api |-> ev.api, arg |-> ev, m0 |-> maps, f0 |-> facts.hard]
+VmCallEffect(ev) == /\ vm' = [api |-> ev.api, arg |-> ev, m0 |-> maps, f0 |-> facts.hard, log |-> <<>>]
                     /\ UNCHANGED <<page, maps, fds, files, objsz, handles, spans, rt, rtc, jit, flushed, lastfree, facts>>
 
 New == maps \ vm.m0
@@ -319,6 +323,17 @@ HriWhy(ev) ==
 ProtectHandles(ev) ==
   IF ev.r = "Ok" THEN {IF \E r \in HRanges(h) : r[1] < vm.arg.p + PageUp(vm.arg.n) /\ vm.arg.p < r[1] + r[2] THEN [h EXCEPT !.pristine = FALSE] ELSE h : h \in handles}
   ELSE handles
+(* ProtectJitReadWriteScope: "It calls protect_jit_memory(kReadWrite) at construction time and                *)
+(*   protect_jit_memory(kReadExecute) combined with flush_instruction_cache() in destructor" - the flush      *)
+(*   unless the policy is CachePolicy::kNeverFlush ("Avoid flushing instruction cache after a write").       *)
+ScopeOpenWhy(ev) == Chk("scope: construction is not exactly protect_jit_memory(kReadWrite)", vm.log = <<[k |-> "jit", acc |-> "RW"]>>)
+ScopeCloseWhy(ev) ==
+  LET a == vm.arg
+      rx == [k |-> "jit", acc |-> "RX"]
+      fl == [k |-> "flush", a |-> a.p, n |-> a.n] IN
+  Chk("scope: destruction is not protect_jit_memory(kReadExecute) followed by flush_instruction_cache(rx, size) unless kNeverFlush",
+      vm.log = (IF a.policy = 2 THEN <<rx>> ELSE <<rx, fl>>))
+
 VmRetHandles(ev) ==
   IF ev.api = "alloc" THEN AllocHandles(ev) ELSE IF ev.api = "release" THEN ReleaseHandles(ev) ELSE IF ev.api = "protect" THEN ProtectHandles(ev)
   ELSE IF ev.api = "dual" THEN DualHandles(ev) ELSE IF ev.api = "reldual" THEN RelDualHandles(ev) ELSE handles
@@ -328,7 +343,8 @@ VmRetWhy(ev) ==
   ELSE (IF ev.api = "alloc" THEN AllocWhy(ev) ELSE IF ev.api = "release" THEN ReleaseWhy(ev)
         ELSE IF ev.api = "protect" THEN ProtectWhy(ev) ELSE IF ev.api = "dual" THEN DualWhy(ev)
         ELSE IF ev.api = "reldual" THEN RelDualWhy(ev) ELSE IF ev.api = "info" THEN InfoWhy(ev)
-        ELSE IF ev.api = "lps" THEN LpsWhy(ev) ELSE IF ev.api = "hri" THEN HriWhy(ev) ELSE {"vm: unknown api"})
+        ELSE IF ev.api = "lps" THEN LpsWhy(ev) ELSE IF ev.api = "hri" THEN HriWhy(ev)
+        ELSE IF ev.api = "scope_open" THEN ScopeOpenWhy(ev) ELSE IF ev.api = "scope_close" THEN ScopeCloseWhy(ev) ELSE {"vm: unknown api"})
        \cup LeakWhy(VmRetHandles(ev))
 
 VmRetEffect(ev) ==
